@@ -66,7 +66,7 @@ func c08R2(c *Ctx, r *c08Roles) {
 				lbl := c08MutationLabel(M)
 				seen[lbl]++
 				key := fmt.Sprintf("%s|%s#%d", fname, lbl, seen[lbl])
-				mkCut := func() *cut { return newCut().Calls(saves).Edges(off...).Edges(c08InfeasibleAfter(M)...) }
+				mkCut := func() *cut { return newCut().Calls(saves).Edges(off...).Edges(c08InfeasibleAfter(M, r)...) }
 				ret := c08NilReturnAfter(M, mkCut())
 				if ret == nil {
 					c.OK(R2, key, M.Pos(), "every path from this change of the tag map to a nil-error return calls saveIndex (or takes the AutoSaveIndex==false edge)")
@@ -117,6 +117,7 @@ func c08RefNameConst(p *Prog) (string, bool) {
 }
 
 type c08Pass struct {
+	fn      *ssa.Function
 	l       *Loop
 	k, v    ssa.Value
 	obj     c09DescObj
@@ -131,7 +132,7 @@ func c08Passes(f *ssa.Function, maps map[ssa.Value]bool) []c08Pass {
 		if !ok || !maps[ranged] {
 			continue
 		}
-		p := c08Pass{l: l}
+		p := c08Pass{fn: f, l: l}
 		for _, r := range *next.Referrers() {
 			if e, ok := r.(*ssa.Extract); ok {
 				if e.Index == 1 {
@@ -209,6 +210,57 @@ func c08IsStripHelper(p *Prog, g *ssa.Function) bool {
 	return uses
 }
 
+// c08RefNameSet: at the load `e` of the entry's cell (in fn), the entry's
+// Annotations field holds a map made in fn in which refName is set to k; copied
+// reports whether the entry's previous annotations were copied into that map.
+func c08RefNameSet(fn *ssa.Function, obj c09DescObj, k ssa.Value, e ssa.Value, refName string) (ok bool, why string, copied bool) {
+	ld, isLoad := e.(*ssa.UnOp)
+	if !isLoad {
+		return false, "appended value is not a load of the entry's cell", false
+	}
+	var st *ssa.Store
+	for cell := range obj.cells {
+		for _, ref := range *cell.Referrers() {
+			if fa, isFA := ref.(*ssa.FieldAddr); isFA && strings.HasSuffix(fieldName(fa.X.Type(), fa.Field), ".Annotations") {
+				for _, r2 := range *fa.Referrers() {
+					if s, isSt := r2.(*ssa.Store); isSt && s.Addr == fa && Dominates(s, ld) {
+						st = s
+					}
+				}
+			}
+		}
+	}
+	if st == nil {
+		return false, "the entry's Annotations are not replaced before it is appended (the reference name is not recorded)", false
+	}
+	if !c08FreshMap(st.Val) {
+		return false, "the annotations map assigned to the entry is not freshly made (writing the reference name into it would modify the descriptor held by the resolver)", false
+	}
+	set := false
+	AllInstrs(fn, func(in ssa.Instruction) {
+		if mu, isMU := in.(*ssa.MapUpdate); isMU && c09SameKey(mu.Map, st.Val) {
+			if s, isC := constString(mu.Key); isC && s == refName && c09SameKey(mu.Value, k) && Dominates(mu, ld) {
+				set = true
+			}
+		}
+	})
+	if !set {
+		return false, "annotations[" + refName + "] is not set to the reference of the entry", false
+	}
+	for _, cc := range Calls(fn, func(n string) bool { return n == "maps.Copy" || n == "maps.Insert" }) {
+		args := cc.Common().Args
+		if c09SameKey(args[0], st.Val) && obj.fieldOf(args[1], "Annotations") {
+			copied = true
+		}
+	}
+	for _, rt := range Roots(st.Val) {
+		if call, isCall := rt.(*ssa.Call); isCall && CalleeName(call) == "maps.Clone" && obj.fieldOf(call.Call.Args[0], "Annotations") {
+			copied = true
+		}
+	}
+	return true, "", copied
+}
+
 // c08FreshMap: every value m may denote is a map made in this function (make / maps.Clone).
 func c08FreshMap(m ssa.Value) bool {
 	rs := Roots(m)
@@ -239,12 +291,40 @@ func c08R1(c *Ctx, r *c08Roles) {
 	}
 	for S := range r.savers {
 		sn := FnName(S)
-		resolver := c08StoreFieldLoads(S, r.store, "tagResolver")
+		// the projection may be spread over unexported helpers below S (passes extracted into functions)
+		var hosts []*ssa.Function
+		for _, h := range c09ReachableInPkg(S, 2) {
+			if h == S || (!r.indexWriter[h] && !c08IsStripHelper(c.P, h) && (h.Object() == nil || !h.Object().Exported())) {
+				hosts = append(hosts, h)
+			}
+		}
 		maps := map[ssa.Value]bool{}
-		for _, mc := range CallsTo(S, c08nResMap) {
-			if resolver[mc.Common().Args[0]] {
-				for a := range Aliases(mc.Value()) {
-					maps[a] = true
+		for _, h := range hosts {
+			resolver := c08StoreFieldLoads(h, r.store, "tagResolver")
+			for _, mc := range CallsTo(h, c08nResMap) {
+				if resolver[mc.Common().Args[0]] {
+					for a := range Aliases(mc.Value()) {
+						maps[a] = true
+					}
+				}
+			}
+		}
+		for round := 0; round < 2; round++ {
+			for _, h := range hosts {
+				if h == S {
+					continue
+				}
+				for _, prm := range h.Params {
+					os, ok := c09Origins(c.P, prm, 1, nil)
+					all := ok && len(os) > 0
+					for _, o := range os {
+						all = all && maps[o]
+					}
+					if all {
+						for a := range Aliases(prm) {
+							maps[a] = true
+						}
+					}
 				}
 			}
 		}
@@ -273,9 +353,24 @@ func c08R1(c *Ctx, r *c08Roles) {
 				for _, e := range u.Edges {
 					grow(e)
 				}
+			case *ssa.Extract:
+				if call, ok := u.Tuple.(*ssa.Call); ok {
+					if g := StaticCallee(call); g != nil && len(g.Blocks) > 0 && fnPkgPath(g) == pkgPath(c08Pkg) {
+						for _, a := range RetAtoms(g, u.Index) {
+							grow(a.Val)
+						}
+					}
+				}
 			case *ssa.Call:
 				if CalleeName(u) == "builtin:append" {
 					grow(u.Call.Args[0])
+					if _, whole := c09AppendedElems(u); whole != nil {
+						grow(whole) // append(a, b...): b's elements are emitted too
+					}
+				} else if g := StaticCallee(u); g != nil && len(g.Blocks) > 0 && fnPkgPath(g) == pkgPath(c08Pkg) {
+					for _, a := range RetAtoms(g, 0) {
+						grow(a.Val) // the slice built by an extracted pass
+					}
 				}
 			}
 		}
@@ -285,13 +380,17 @@ func c08R1(c *Ctx, r *c08Roles) {
 			elems []ssa.Value
 		}
 		var emits []emit
-		for _, ap := range CallsTo(S, "builtin:append") {
-			if acc[ap.Value()] {
-				el, _ := c09AppendedElems(ap)
-				emits = append(emits, emit{ap, el})
+		var passes []c08Pass
+		for _, h := range hosts {
+			for _, ap := range CallsTo(h, "builtin:append") {
+				if acc[ap.Value()] {
+					if el, _ := c09AppendedElems(ap); len(el) > 0 {
+						emits = append(emits, emit{ap, el})
+					}
+				}
 			}
+			passes = append(passes, c08Passes(h, maps)...)
 		}
-		passes := c08Passes(S, maps)
 		// pass 1: every ref != digest entry is appended
 		var p1 *c08Pass
 		var p1Emits []emit
@@ -304,7 +403,15 @@ func c08R1(c *Ctx, r *c08Roles) {
 			ct := newCut()
 			for _, em := range emits {
 				for _, e := range em.elems {
-					if p.l.Contains(em.call.(ssa.Instruction)) && p.obj.vals[e] {
+					fromEntry := p.obj.vals[e]
+					if call, isCall := e.(*ssa.Call); isCall && !fromEntry {
+						if g := StaticCallee(call); g != nil && inModule(g) && !c08IsStripHelper(c.P, g) {
+							for _, a := range call.Call.Args {
+								fromEntry = fromEntry || p.obj.vals[a]
+							}
+						}
+					}
+					if p.l.Contains(em.call.(ssa.Instruction)) && fromEntry {
 						mine = append(mine, em)
 						ct.Instr(em.call.(ssa.Instruction))
 					}
@@ -336,62 +443,55 @@ func c08R1(c *Ctx, r *c08Roles) {
 		}
 		// the appended descriptor carries refName = ref on a fresh annotations map, other annotations copied
 		okAnn, why := true, ""
-		var fresh ssa.Value
+		copied, nChecked := true, 0
 		for _, em := range p1Emits {
 			for _, e := range em.elems {
-				ld, isLoad := e.(*ssa.UnOp)
-				if !isLoad {
-					okAnn, why = false, "appended value is not a load of the entry's cell"
+				nChecked++
+				if p1.obj.vals[e] {
+					ok, w, cp := c08RefNameSet(p1.fn, p1.obj, p1.k, e, refName)
+					if !ok {
+						okAnn, why = false, w
+					}
+					copied = copied && cp
 					continue
 				}
-				var st *ssa.Store
-				for cell := range p1.obj.cells {
-					for _, ref := range *cell.Referrers() {
-						if fa, ok := ref.(*ssa.FieldAddr); ok && strings.HasSuffix(fieldName(fa.X.Type(), fa.Field), ".Annotations") {
-							for _, r2 := range *fa.Referrers() {
-								if s, ok := r2.(*ssa.Store); ok && s.Addr == fa && Dominates(s, ld) {
-									st = s
-								}
-							}
+				// built by a helper: withRefName(desc, ref)
+				call, isCall := e.(*ssa.Call)
+				g := (*ssa.Function)(nil)
+				if isCall {
+					g = StaticCallee(call)
+				}
+				pd, pr := -1, -1
+				if g != nil && len(g.Blocks) > 0 {
+					for ai, a := range call.Call.Args {
+						if p1.obj.vals[a] {
+							pd = ai
+						}
+						if c09SameKey(a, p1.k) {
+							pr = ai
 						}
 					}
 				}
-				if st == nil {
-					okAnn, why = false, "the entry's Annotations are not replaced before it is appended (the reference name is not recorded)"
+				if pd < 0 || pr < 0 || pd >= len(g.Params) || pr >= len(g.Params) {
+					okAnn, why = false, "the appended value is neither the entry nor built by a helper from the entry and its reference"
 					continue
 				}
-				if !c08FreshMap(st.Val) {
-					okAnn, why = false, "the annotations map assigned to the entry is not freshly made in this function (writing the reference name into it would modify the descriptor held by the resolver)"
-					continue
+				gobj := c09DescObjOf(g.Params[pd])
+				atoms := RetAtoms(g, 0)
+				if len(atoms) == 0 {
+					okAnn, why = false, "helper "+FnName(g)+" returns nothing"
 				}
-				fresh = st.Val
-				set := false
-				AllInstrs(S, func(in ssa.Instruction) {
-					if mu, ok := in.(*ssa.MapUpdate); ok && c09SameKey(mu.Map, st.Val) {
-						if s, ok := constString(mu.Key); ok && s == refName && c09SameKey(mu.Value, p1.k) && Dominates(mu, ld) {
-							set = true
-						}
+				for _, a := range atoms {
+					ok, w, cp := c08RefNameSet(g, gobj, g.Params[pr], a.Val, refName)
+					if !ok {
+						okAnn, why = false, FnName(g)+": "+w
 					}
-				})
-				if !set {
-					okAnn, why = false, "annotations["+refName+"] is not set to the reference of the entry"
+					copied = copied && cp
 				}
 			}
 		}
-		c.Check(R1, sn+"|tagged-entry-carries-ref-name", S.Pos(), okAnn, ifelse(okAnn, "each appended tagged entry has "+refName+" = ref on a map made in this function", why))
-		if fresh != nil {
-			copied := false
-			for _, cc := range Calls(S, func(n string) bool { return n == "maps.Copy" || n == "maps.Insert" }) {
-				args := cc.Common().Args
-				if c09SameKey(args[0], fresh) && p1.obj.fieldOf(args[1], "Annotations") {
-					copied = true
-				}
-			}
-			for _, rt := range Roots(fresh) {
-				if call, ok := rt.(*ssa.Call); ok && CalleeName(call) == "maps.Clone" && p1.obj.fieldOf(call.Call.Args[0], "Annotations") {
-					copied = true
-				}
-			}
+		c.Check(R1, sn+"|tagged-entry-carries-ref-name", S.Pos(), okAnn, ifelse(okAnn, "each appended tagged entry has "+refName+" = ref on a map made for it", why))
+		if okAnn && nChecked > 0 {
 			if copied {
 				c.OK(R1, sn+"|other-annotations-preserved", S.Pos(), "the entry's other annotations are copied into the fresh map")
 			} else {
@@ -400,10 +500,81 @@ func c08R1(c *Ctx, r *c08Roles) {
 		}
 		// pass 2: every ref == digest entry is appended stripped, or skipped because its digest was emitted in pass 1
 		var dedupSets = map[ssa.Value]bool{}
-		for _, sc := range CallsTo(S, "~/internal/container/set.New") {
-			for a := range Aliases(sc.Value()) {
-				dedupSets[a] = true
+		for _, h := range hosts {
+			for _, sc := range CallsTo(h, "~/internal/container/set.New") {
+				for a := range Aliases(sc.Value()) {
+					dedupSets[a] = true
+				}
 			}
+		}
+		// the set handed on to / returned by an extracted pass
+		var isDedup func(v ssa.Value, d int) bool
+		isDedup = func(v ssa.Value, d int) bool {
+			if v == nil || d > 3 {
+				return false
+			}
+			if dedupSets[v] {
+				return true
+			}
+			rs := Roots(v)
+			if len(rs) == 0 {
+				return false
+			}
+			for _, rt := range rs {
+				ok := dedupSets[rt]
+				switch u := rt.(type) {
+				case *ssa.Parameter:
+					if os, okO := c09Origins(c.P, u, 1, nil); okO && len(os) > 0 && !(len(os) == 1 && os[0] == ssa.Value(u)) {
+						ok = true
+						for _, o := range os {
+							ok = ok && isDedup(o, d+1)
+						}
+					}
+				case *ssa.Call, *ssa.Extract:
+					var call *ssa.Call
+					idx := 0
+					if ex, isEx := u.(*ssa.Extract); isEx {
+						call, _ = ex.Tuple.(*ssa.Call)
+						idx = ex.Index
+					} else {
+						call = u.(*ssa.Call)
+					}
+					if call != nil {
+						if g := StaticCallee(call); g != nil && len(g.Blocks) > 0 && fnPkgPath(g) == pkgPath(c08Pkg) && idx < g.Signature.Results().Len() {
+							as := RetAtoms(g, idx)
+							ok = len(as) > 0
+							for _, a := range as {
+								ok = ok && isDedup(a.Val, d+1)
+							}
+						}
+					}
+				}
+				if !ok {
+					return false
+				}
+			}
+			return true
+		}
+		for _, h := range hosts {
+			for _, prm := range h.Params {
+				if c09IsSetType(prm.Type()) && isDedup(prm, 0) {
+					for a := range Aliases(prm) {
+						dedupSets[a] = true
+					}
+				}
+			}
+			AllInstrs(h, func(in ssa.Instruction) {
+				if v, ok := in.(ssa.Value); ok && c09IsSetType(v.Type()) && !dedupSets[v] {
+					switch v.(type) {
+					case *ssa.Call, *ssa.Extract:
+						if isDedup(v, 0) {
+							for a := range Aliases(v) {
+								dedupSets[a] = true
+							}
+						}
+					}
+				}
+			})
 		}
 		var p2 *c08Pass
 		okStrip := true
@@ -432,7 +603,7 @@ func c08R1(c *Ctx, r *c08Roles) {
 					}
 				}
 			}
-			dup, _, _ := CallTests(S, "(~/internal/container/set.Set[T]).Contains", func(x *ssa.Call) bool {
+			dup, _, _ := CallTests(p.fn, "(~/internal/container/set.Set[T]).Contains", func(x *ssa.Call) bool {
 				return dedupSets[x.Call.Args[0]] && p.obj.fieldOf(x.Call.Args[1], "Digest")
 			})
 			ct.Edges(dup...)
@@ -454,25 +625,27 @@ func c08R1(c *Ctx, r *c08Roles) {
 		}
 		// de-duplication set: only digests emitted in pass 1
 		okDedup, nAdd := true, 0
-		AllInstrs(S, func(in ssa.Instruction) {
-			op, set, elem := c09SetOp(in)
-			if op != "add" || !dedupSets[set] {
-				return
-			}
-			nAdd++
-			if !p1.l.Contains(in) || !p1.obj.fieldOf(elem, "Digest") {
-				okDedup = false
-				return
-			}
-			ct := newCut()
-			for _, em := range p1Emits {
-				ct.Instr(em.call.(ssa.Instruction))
-			}
-			hdr := p1.l.Header.Instrs[0]
-			if reach(p1.l.Header, 0, in, ct) && reach(in.Block(), instrIndex(in)+1, hdr, ct) {
-				okDedup = false
-			}
-		})
+		for _, h := range hosts {
+			AllInstrs(h, func(in ssa.Instruction) {
+				op, set, elem := c09SetOp(in)
+				if op != "add" || !dedupSets[set] {
+					return
+				}
+				nAdd++
+				if !p1.l.Contains(in) || !p1.obj.fieldOf(elem, "Digest") {
+					okDedup = false
+					return
+				}
+				ct := newCut()
+				for _, em := range p1Emits {
+					ct.Instr(em.call.(ssa.Instruction))
+				}
+				hdr := p1.l.Header.Instrs[0]
+				if reach(p1.l.Header, 0, in, ct) && reach(in.Block(), instrIndex(in)+1, hdr, ct) {
+					okDedup = false
+				}
+			})
+		}
 		if nAdd > 0 {
 			c.Check(R1, sn+"|dedup-only-emitted-digests", S.Pos(), okDedup, ifelse(okDedup, "a digest enters the de-duplication set only in an iteration of the first pass that appends the entry",
 				"a digest can be marked as already written without its entry having been appended: the second pass then skips a manifest that is in no index entry"))
@@ -499,10 +672,9 @@ func c08R1(c *Ctx, r *c08Roles) {
 				}
 			})
 		}
-		check(S)
-		for _, call := range Calls(S, func(string) bool { return true }) {
-			if g := StaticCallee(call); c08IsStripHelper(c.P, g) {
-				check(g)
+		for _, h := range c09ReachableInPkg(S, 2) {
+			if !r.indexWriter[h] && (h == S || h.Object() == nil || !h.Object().Exported()) {
+				check(h) // the projection and the helpers that build or strip the emitted descriptors
 			}
 		}
 		c.Check(R1, sn+"|resolver-maps-not-written", S.Pos(), okFresh, ifelse(okFresh, "every map written by the projection (and the strip helper) is made locally", whyFresh+": the descriptor held by the resolver (and returned by Resolve) would change"))
@@ -534,20 +706,32 @@ func c08R3(c *Ctx, r *c08Roles) {
 	const R3 = "C08.R3.load-protocol"
 	c.Expect(R3, 8)
 	refName, _ := c08RefNameConst(c.P)
-	// loadIndex role: ranges over ocispec.Index.Manifests and calls Tagger.Tag
-	var loaders []*ssa.Function
+	isTag := func(n string) bool { return n == "(~/content.Tagger).Tag" || n == c08nResTag }
+	// loadIndex role: a range over ocispec.Index.Manifests below which (directly or in a helper) every entry is tagged
+	type loader struct {
+		fn *ssa.Function
+		l  *Loop
+	}
+	var loaders []loader
 	for _, f := range c.P.FuncsOfPkg(c08Pkg) {
-		if len(CallsTo(f, "(~/content.Tagger).Tag")) > 0 || (len(CallsTo(f, c08nResTag)) > 0 && len(CallsTo(f, "(*~/internal/graph.Memory).IndexAll")) > 0 && !r.savers[f]) {
-			for _, l := range Loops(f) {
-				if ranged, _, _, _, ok := l.RangeIndex(); ok {
-					for _, rt := range Roots(ranged) {
-						if u, ok := rt.(*ssa.UnOp); ok {
-							if fa, ok := u.X.(*ssa.FieldAddr); ok && strings.HasSuffix(fieldName(fa.X.Type(), fa.Field), "ocispec.Index.Manifests") {
-								loaders = append(loaders, f)
-							}
-						}
+		if r.savers[f] {
+			continue
+		}
+		for _, l := range Loops(f) {
+			ranged, _, _, _, ok := l.RangeIndex()
+			if !ok {
+				continue
+			}
+			isManifests := false
+			for _, rt := range Roots(ranged) {
+				if u, ok := rt.(*ssa.UnOp); ok {
+					if fa, ok := u.X.(*ssa.FieldAddr); ok && strings.HasSuffix(fieldName(fa.X.Type(), fa.Field), "ocispec.Index.Manifests") {
+						isManifests = true
 					}
 				}
+			}
+			if isManifests && reachesCall(f, 2, func(n string, _ ssa.CallInstruction) bool { return isTag(n) }) {
+				loaders = append(loaders, loader{f, l})
 			}
 		}
 	}
@@ -555,83 +739,144 @@ func c08R3(c *Ctx, r *c08Roles) {
 		c.LostAnchor(R3, "loadIndex role (ranges over Index.Manifests and tags each entry)")
 		return
 	}
-	isTag := func(n string) bool { return n == "(~/content.Tagger).Tag" || n == c08nResTag }
-	for _, L := range loaders {
+	var loaderFns []*ssa.Function
+	for _, ld := range loaders {
+		L, l := ld.fn, ld.l
+		loaderFns = append(loaderFns, L)
 		ln := FnName(L)
-		for _, l := range Loops(L) {
-			ranged, idx, body, _, ok := l.RangeIndex()
-			if !ok {
+		ranged, idx, body, _, _ := l.RangeIndex()
+		// the element of this iteration
+		var elem ssa.Value
+		for _, ref := range *idx.Referrers() {
+			if ia, ok := ref.(*ssa.IndexAddr); ok && (c09SameKey(ia.X, ranged) || c09SameFieldLoad(ia.X, ranged)) {
+				for _, r2 := range *ia.Referrers() {
+					if ld, ok := r2.(*ssa.UnOp); ok && ld.Op == token.MUL {
+						elem = ld
+					}
+				}
+			}
+		}
+		if elem == nil {
+			c.Undecided(R3, ln+"|every-entry-tagged-by-digest-stripped", blockPos(l.Header), "the element of the range over Index.Manifests is not read as manifests[i]")
+			continue
+		}
+		obj := c09DescObjOf(elem)
+		inObj := func(v ssa.Value) bool { return v != nil && (obj.vals[v] || obj.vals[strip(v)]) }
+		header := l.Header.Instrs[0]
+		inLoop := func(ins []ssa.Instruction) []ssa.Instruction {
+			var out []ssa.Instruction
+			for _, in := range ins {
+				if l.Contains(in) {
+					out = append(out, in)
+				}
+			}
+			return out
+		}
+		// Tag(strip(desc), desc.Digest.String()) / IndexAll(plain(desc)) — performed in the loop or by a helper called from it
+		byDigest := inLoop(c09EffectSites(L, c09Identity, func(call ssa.CallInstruction, bind c09Bind) bool {
+			a := call.Common().Args
+			if !isTag(CalleeName(call)) || len(a) < 2 {
+				return false
+			}
+			desc, ref := a[len(a)-2], a[len(a)-1]
+			rc, ok := strip(ref).(*ssa.Call)
+			if !ok || CalleeName(rc) != "(digest.Digest).String" || !inObj(bind(c09FieldBase(rc.Call.Args[0], "Digest"))) {
+				return false
+			}
+			sc, ok := desc.(*ssa.Call)
+			return ok && len(sc.Call.Args) == 1 && c08IsStripHelper(c.P, StaticCallee(sc)) && inObj(bind(c09CellOrValue(sc.Call.Args[0])))
+		}, 2))
+		idxAll := inLoop(c09EffectSites(L, c09Identity, func(call ssa.CallInstruction, bind c09Bind) bool {
+			a := call.Common().Args
+			if CalleeName(call) != "(*~/internal/graph.Memory).IndexAll" || len(a) == 0 {
+				return false
+			}
+			last := a[len(a)-1]
+			if pc, ok := last.(*ssa.Call); ok && len(pc.Call.Args) == 1 {
+				last = pc.Call.Args[0]
+			}
+			return inObj(bind(c09CellOrValue(last)))
+		}, 2))
+		ok1 := len(byDigest) > 0 && !reach(body.To, 0, header, newCut().Instr(byDigest...))
+		c.Check(R3, ln+"|every-entry-tagged-by-digest-stripped", blockPos(l.Header), ok1, ifelse(ok1, "each index entry is tagged by its digest with the ref-name annotation removed", "an index entry can be skipped (or keeps its ref-name annotation) when tagging by digest: Resolve(digest) differs after reopen"))
+		ok2 := len(idxAll) > 0 && !reach(body.To, 0, header, newCut().Instr(idxAll...))
+		c.Check(R3, ln+"|every-entry-indexed", blockPos(l.Header), ok2, ifelse(ok2, "each index entry's graph is indexed", "an index entry's graph may not be indexed: Predecessors differ after reopen"))
+		// Tag(desc, desc.Annotations[refName]) exactly when the annotation is non-empty: evaluated in the
+		// function that hosts that call (the loader, or the helper that handles one entry)
+		ok3, found := true, false
+		var errCalls []ssa.CallInstruction
+		hosts := []struct {
+			fn   *ssa.Function
+			bind c09Bind
+			loop *Loop
+		}{{L, c09Identity, l}}
+		for _, call := range Calls(L, func(string) bool { return true }) {
+			g := StaticCallee(call)
+			if _, isCall := call.(*ssa.Call); !isCall || g == nil || !l.Contains(call.(ssa.Instruction)) || fnPkgPath(g) != fnPkgPath(L) || len(g.Blocks) == 0 {
 				continue
 			}
-			// the element of this iteration
-			var elem ssa.Value
-			for _, ref := range *idx.Referrers() {
-				if ia, ok := ref.(*ssa.IndexAddr); ok && c09SameKey(ia.X, ranged) {
-					for _, r2 := range *ia.Referrers() {
-						if ld, ok := r2.(*ssa.UnOp); ok && ld.Op == token.MUL {
-							elem = ld
+			args := call.Common().Args
+			hosts = append(hosts, struct {
+				fn   *ssa.Function
+				bind c09Bind
+				loop *Loop
+			}{g, func(v ssa.Value) ssa.Value {
+				if pf, i := c09ParamOf(v); pf == g && i < len(args) {
+					return args[i]
+				}
+				return nil
+			}, nil})
+		}
+		for _, h := range hosts {
+			for _, tc := range Calls(h.fn, isTag) {
+				if h.loop != nil && !h.loop.Contains(tc.(ssa.Instruction)) {
+					continue
+				}
+				a := tc.Common().Args
+				desc, ref := a[len(a)-2], a[len(a)-1]
+				var lk *ssa.Lookup
+				for _, rt := range Roots(ref) {
+					switch u := rt.(type) {
+					case *ssa.Lookup:
+						lk = u
+					case *ssa.Extract:
+						if x, ok := u.Tuple.(*ssa.Lookup); ok && u.Index == 0 {
+							lk = x
 						}
 					}
 				}
-			}
-			if elem == nil {
-				continue
-			}
-			obj := c09DescObjOf(elem)
-			header := l.Header.Instrs[0]
-			var byDigest, byRef, idxAll []ssa.Instruction
-			var refVal ssa.Value
-			for _, tc := range Calls(L, isTag) {
-				if !l.Contains(tc.(ssa.Instruction)) {
+				if lk == nil {
 					continue
 				}
-				args := tc.Common().Args
-				desc, ref := args[len(args)-2], args[len(args)-1]
-				if call, ok := ref.(*ssa.Call); ok && CalleeName(call) == "(digest.Digest).String" && obj.fieldOf(call.Call.Args[0], "Digest") {
-					// Tag(strip(desc), digest)
-					if sc, ok := desc.(*ssa.Call); ok && c08IsStripHelper(c.P, StaticCallee(sc)) && obj.vals[sc.Call.Args[0]] {
-						byDigest = append(byDigest, tc.(ssa.Instruction))
-					}
+				if sv, ok := constString(lk.Index); !ok || sv != refName {
 					continue
 				}
-				if lk, ok := ref.(*ssa.Lookup); ok && obj.fieldOf(lk.X, "Annotations") && obj.vals[desc] {
-					if s, ok := constString(lk.Index); ok && s == refName {
-						byRef = append(byRef, tc.(ssa.Instruction))
-						refVal = lk
+				if !inObj(h.bind(c09FieldBase(lk.X, "Annotations"))) || !inObj(h.bind(c09CellOrValue(desc))) {
+					continue
+				}
+				found = true
+				errCalls = append(errCalls, tc)
+				refVals := Aliases(ref)
+				for _, rt := range Roots(ref) {
+					for a := range Aliases(rt) {
+						refVals[a] = true
 					}
 				}
-			}
-			for _, ic := range CallsTo(L, "(*~/internal/graph.Memory).IndexAll") {
-				if l.Contains(ic.(ssa.Instruction)) {
-					args := ic.Common().Args
-					if pc, ok := args[len(args)-1].(*ssa.Call); ok && len(pc.Call.Args) == 1 && obj.vals[pc.Call.Args[0]] {
-						idxAll = append(idxAll, ic.(ssa.Instruction))
-					} else if obj.vals[args[len(args)-1]] {
-						idxAll = append(idxAll, ic.(ssa.Instruction))
-					}
-				}
-			}
-			ok1 := len(byDigest) > 0 && !reach(body.To, 0, header, newCut().Instr(byDigest...))
-			c.Check(R3, ln+"|every-entry-tagged-by-digest-stripped", blockPos(l.Header), ok1, ifelse(ok1, "each index entry is tagged by its digest with the ref-name annotation removed", "an index entry can be skipped (or keeps its ref-name annotation) when tagging by digest: Resolve(digest) differs after reopen"))
-			ok2 := len(idxAll) > 0 && !reach(body.To, 0, header, newCut().Instr(idxAll...))
-			c.Check(R3, ln+"|every-entry-indexed", blockPos(l.Header), ok2, ifelse(ok2, "each index entry's graph is indexed", "an index entry's graph may not be indexed: Predecessors differ after reopen"))
-			ok3 := false
-			if refVal != nil {
 				var nonEmpty []Edge
-				for _, i := range Ifs(L) {
+				for _, i := range Ifs(h.fn) {
 					cond, t, fe := ifEdges(i)
 					bo, isBo := cond.(*ssa.BinOp)
 					if !isBo || (bo.Op != token.EQL && bo.Op != token.NEQ) {
 						continue
 					}
 					other := bo.Y
-					if !Aliases(refVal)[bo.X] {
-						if !Aliases(refVal)[bo.Y] {
+					if !refVals[bo.X] {
+						if !refVals[bo.Y] {
 							continue
 						}
 						other = bo.X
 					}
-					if s, isC := constString(other); isC && s == "" {
+					if sv, isC := constString(other); isC && sv == "" {
 						if bo.Op == token.NEQ {
 							nonEmpty = append(nonEmpty, t)
 						} else {
@@ -639,29 +884,57 @@ func c08R3(c *Ctx, r *c08Roles) {
 						}
 					}
 				}
-				ok3 = len(nonEmpty) > 0
-				for _, t := range byRef {
-					if !c09Guarded(t, nonEmpty) {
-						ok3 = false
-					}
+				if len(nonEmpty) == 0 || !c09Guarded(tc.(ssa.Instruction), nonEmpty) {
+					ok3 = false
 				}
+				ct := newCut().Instr(tc.(ssa.Instruction))
 				for _, e := range nonEmpty {
-					if reach(e.To, 0, header, newCut().Instr(byRef...)) {
+					if h.loop != nil {
+						if reach(e.To, 0, h.loop.Header.Instrs[0], ct) {
+							ok3 = false
+						}
+					} else if c08NilReturnFrom(e.To, 0, ct) != nil {
 						ok3 = false
 					}
 				}
 			}
-			c.Check(R3, ln+"|tagged-by-ref-iff-annotated", blockPos(l.Header), ok3, ifelse(ok3, "an entry is tagged by its ref-name annotation exactly when the annotation is non-empty", "the reference tag is not (re)created exactly for the entries that carry a ref-name annotation: tags differ after reopen"))
-			okErr := true
-			detail := ""
-			for _, call := range append(append(append([]ssa.Instruction{}, byDigest...), byRef...), idxAll...) {
-				if res := ErrFlow(call.(ssa.CallInstruction), ErrFlowOpts{}); !res.OK {
-					okErr, detail = false, res.Detail
+		}
+		c.Check(R3, ln+"|tagged-by-ref-iff-annotated", blockPos(l.Header), ok3 && found, ifelse(ok3 && found, "an entry is tagged by its ref-name annotation exactly when the annotation is non-empty", "the reference tag is not (re)created exactly for the entries that carry a ref-name annotation: tags differ after reopen"))
+		// errors of the load steps are returned (in the function that makes the call, and by the loader for helper calls)
+		okErr, detail := true, ""
+		var checkErr func(fn *ssa.Function, depth int)
+		checkErr = func(fn *ssa.Function, depth int) {
+			for _, call := range Calls(fn, func(string) bool { return true }) {
+				if _, isCall := call.(*ssa.Call); !isCall {
+					continue
+				}
+				n := CalleeName(call)
+				g := StaticCallee(call)
+				helper := g != nil && depth > 0 && fnPkgPath(g) == fnPkgPath(L) && len(g.Blocks) > 0 && ErrResultIndex(g.Signature) >= 0 &&
+					reachesCall(g, 1, func(n string, _ ssa.CallInstruction) bool { return isTag(n) })
+				if fn == L && !l.Contains(call.(ssa.Instruction)) {
+					continue
+				}
+				if isTag(n) || n == "(*~/internal/graph.Memory).IndexAll" || helper {
+					if res := ErrFlow(call, ErrFlowOpts{}); !res.OK {
+						okErr, detail = false, FnName(fn)+": "+res.Detail
+					}
+				}
+				if helper {
+					checkErr(g, depth-1)
 				}
 			}
-			c.Check(R3, ln+"|load-errors-returned", blockPos(l.Header), okErr, ifelse(okErr, "errors of the three load steps are returned", "a load error is dropped: "+detail))
 		}
-		// both constructors reach the loader and validate the layout version
+		checkErr(L, 2)
+		c.Check(R3, ln+"|load-errors-returned", blockPos(l.Header), okErr, ifelse(okErr, "errors of the three load steps are returned", "a load error is dropped: "+detail))
+	}
+	loadersContain := func(g *ssa.Function) bool {
+		for _, L := range loaderFns {
+			if L == g {
+				return true
+			}
+		}
+		return false
 	}
 	ver, okVer := c.P.Obj("github.com/opencontainers/image-spec/specs-go/v1", "ImageLayoutVersion").(*types.Const)
 	for _, name := range []string{"NewWithContext", "NewFromFS"} {
@@ -670,12 +943,7 @@ func c08R3(c *Ctx, r *c08Roles) {
 			c.LostAnchor(R3, "~/content/oci."+name+" / ocispec.ImageLayoutVersion")
 			continue
 		}
-		loads := false
-		for _, L := range loaders {
-			if reachesCall(f, 3, func(_ string, call ssa.CallInstruction) bool { return StaticCallee(call) == L }) {
-				loads = true
-			}
-		}
+		loads := reachesCall(f, 3, func(_ string, call ssa.CallInstruction) bool { return loadersContain(StaticCallee(call)) })
 		want := constant.StringVal(ver.Val())
 		validates := reachesCall(f, 3, func(_ string, call ssa.CallInstruction) bool {
 			g := StaticCallee(call)
@@ -720,27 +988,49 @@ func c08R4(c *Ctx, r *c08Roles) {
 		fn := FnName(f)
 		ok, n := true, 0
 		why := ""
-		for _, call := range Calls(f, func(nm string) bool { _, hit := s.ops[nm]; return hit }) {
-			n++
-			arg := call.Common().Args[s.ops[CalleeName(call)]]
-			// the path derives from result 0 of an in-package function of the digest
-			var src *ssa.Function
-			for _, pc := range Calls(f, func(string) bool { return true }) {
-				g := StaticCallee(pc)
-				if g == nil || fnPkgPath(g) != pkgPath(c08Pkg) || g.Signature.Params().Len() != 1 {
+		// the access may sit in an unexported helper below f; its path argument is resolved back into f
+		for _, host := range c09ReachableInPkg(f, 2) {
+			if host != f && host.Object() != nil && host.Object().Exported() {
+				continue
+			}
+			for _, call := range Calls(host, func(nm string) bool { _, hit := s.ops[nm]; return hit }) {
+				args, okA := c09Origins(c.P, call.Common().Args[s.ops[CalleeName(call)]], 2, f)
+				if !okA || len(args) == 0 {
 					continue
 				}
-				if v := ResultOf(pc, 0); v != nil && c09Uses(arg, v, 0) {
-					src = g
+				inF := true
+				for _, a := range args {
+					if in, isIn := a.(ssa.Instruction); !isIn || in.Parent() != f {
+						if prm, isP := a.(*ssa.Parameter); !isP || prm.Parent() != f {
+							inF = false
+						}
+					}
 				}
-			}
-			switch {
-			case src == nil:
-				ok, why = false, "the path passed to "+CalleeName(call)+" is not produced by the package's blob-path function"
-			case pathFn == nil:
-				pathFn = src
-			case pathFn != src:
-				ok, why = false, "uses "+FnName(src)+" while other sites use "+FnName(pathFn)
+				if !inF {
+					continue // reached from another operation as well; judged there
+				}
+				n++
+				for _, arg := range args {
+					// the path derives from result 0 of an in-package function of the digest
+					var src *ssa.Function
+					for _, pc := range Calls(f, func(string) bool { return true }) {
+						g := StaticCallee(pc)
+						if g == nil || fnPkgPath(g) != pkgPath(c08Pkg) || g.Signature.Params().Len() != 1 {
+							continue
+						}
+						if v := ResultOf(pc, 0); v != nil && c09Uses(arg, v, 0) {
+							src = g
+						}
+					}
+					switch {
+					case src == nil:
+						ok, why = false, "the path passed to "+CalleeName(call)+" is not produced by the package's blob-path function"
+					case pathFn == nil:
+						pathFn = src
+					case pathFn != src:
+						ok, why = false, "uses "+FnName(src)+" while other sites use "+FnName(pathFn)
+					}
+				}
 			}
 		}
 		if n == 0 {
